@@ -76,6 +76,18 @@ TopFrame(bytes) == LET st0 == FoldLeft(BStepP, BInit(TRUE), bytes)
                    ELSE IF st.vs = <<>> THEN [done |-> FALSE, none |-> TRUE]
                    ELSE [done |-> FALSE, none |-> FALSE, f |-> st.vs[1], rej |-> st.s.m = "rej", depth |-> Len(st.vs)]
 
+\* ---- get_by_schema: recursive merge -------------------------------------------------------
+\* A non-empty object schema meeting an object is merged member by member (schema order and keys kept,
+\* absent keys keep their defaults); anything else is replaced by the document's value.
+RECURSIVE Merge(_, _)
+Merge(sv, dv) ==
+  IF sv.t = "obj" /\ sv.m # <<>> /\ dv.t = "obj"
+  THEN [t |-> "obj", a |-> 0, z |-> 0,
+        m |-> [i \in 1..Len(sv.m) |->
+                 LET j == FirstIndex(dv.m, sv.m[i][1].s) IN
+                 IF j = 0 THEN sv.m[i] ELSE <<sv.m[i][1], Merge(sv.m[i][2], dv.m[j][2])>>]]
+  ELSE dv
+
 \* ---- get_many: the trie walk (operational) ---------------------------------------------
 \* paths: sequence of paths.  Declarative result: one slot per path, in order.
 SlotOf(root, p) == Lookup(root, p)
